@@ -62,7 +62,7 @@ fn action(kind: usize, blen: usize) -> Action {
 
 /// the adversarial corpus; deterministic in (seed, index)
 fn gen_case(i: usize, rng: &mut Rng) -> (ConnCase, String) {
-    let fam = i % 14;
+    let fam = i % 16;
     let act = rng.below(5);
     let mut tag = String::new();
     let mut bytes: Vec<u8> = vec![];
@@ -146,6 +146,17 @@ fn gen_case(i: usize, rng: &mut Rng) -> (ConnCase, String) {
             // run by `rstbody_case`, not through `run_case`
             tag = "rstbody".into();
         }
+        15 => {
+            // run by `rstpipe_case`, not through `run_case`
+            tag = "rstpipe".into();
+        }
+        14 => {
+            // HEAD, the client insisting on identity coding (HTTP/1.0, or TE: identity), answered
+            // with a body of undeclared length
+            let v = *rng.pick(&["HEAD /h HTTP/1.0\r\nHost: x\r\n\r\n", "HEAD /h HTTP/1.1\r\nHost: x\r\nTE: identity\r\n\r\n", "HEAD /h HTTP/1.0\r\nConnection: keep-alive\r\n\r\nGET /n HTTP/1.0\r\n\r\n"]);
+            bytes.extend_from_slice(v.as_bytes());
+            tag = "headid".into();
+        }
         12 => {
             // clients that send a whole request and reset the connection at once, ahead of an
             // ordinary conversation on the same server
@@ -170,7 +181,12 @@ fn gen_case(i: usize, rng: &mut Rng) -> (ConnCase, String) {
             tag = format!("pipeline{}{}", if v2 { "v" } else { "" }, n);
         }
     }
-    let c = ConnCase { bytes, mode: Mode::HalfClose, hold: None, segs: vec![], script: vec![action(act, blen)], unix: false, intent: format!("i_fam=c14 i_tag={} i_act={}", tag, act) };
+    let mut a = action(act, blen);
+    if tag == "headid" {
+        let n = *rng.pick(&[0usize, 10, 5000]);
+        a.fin = Finish::Respond(RespSpec { status: 200, hdrs: vec![], declared: None, thr: None, pieces: vec![vec![b'u'; n]] });
+    }
+    let c = ConnCase { bytes, mode: Mode::HalfClose, hold: None, segs: vec![], script: vec![a], unix: false, intent: format!("i_fam=c14 i_tag={} i_act={}", tag, act) };
     (c, tag)
 }
 
@@ -231,6 +247,53 @@ fn rstbody_case(id: usize, rng: &mut Rng) -> String {
     )
 }
 
+/// Three pipelined requests are with the application when the client resets the connection; then
+/// they are answered (or dropped) one after the other.  Writing to the dead socket fails somewhere
+/// along the way; none of the later answers may panic because of it.
+fn rstpipe_case(id: usize, rng: &mut Rng) -> String {
+    let server = std::sync::Arc::new(tiny_http::Server::http("127.0.0.1:0").unwrap());
+    let ip = server.server_addr().to_ip().unwrap();
+    let big = rng.chance(1, 2);
+    let drop_last = rng.chance(1, 2);
+    let s2 = server.clone();
+    let (tx, rx) = std::sync::mpsc::channel();
+    let (go_tx, go_rx) = std::sync::mpsc::channel::<()>();
+    std::thread::spawn(move || {
+        let mut held = vec![];
+        for _ in 0..3 {
+            if let Ok(Some(rq)) = s2.recv_timeout(std::time::Duration::from_secs(2)) {
+                held.push(rq);
+            }
+        }
+        let _ = go_tx.send(());
+        std::thread::sleep(std::time::Duration::from_millis(60));
+        let n = held.len();
+        for (k, rq) in held.into_iter().enumerate() {
+            if drop_last && k + 1 == n {
+                drop(rq);
+            } else {
+                let body = vec![b'r'; if big { 3000 } else { 10 }];
+                let _ = rq.respond(tiny_http::Response::from_data(body));
+            }
+        }
+        let _ = tx.send(());
+    });
+    if let Ok(mut c) = std::net::TcpStream::connect(ip) {
+        let _ = c.write_all(b"GET /p0 HTTP/1.1\r\nHost: x\r\n\r\nGET /p1 HTTP/1.1\r\nHost: x\r\n\r\nGET /p2 HTTP/1.1\r\nHost: x\r\n\r\n");
+        let _ = go_rx.recv_timeout(std::time::Duration::from_secs(3));
+        verif_harness::connrun::abort_on_close(&c);
+        drop(c);
+    }
+    let hang = rx.recv_timeout(std::time::Duration::from_secs(5)).is_err();
+    drop(server);
+    format!(
+        "conn id={} bytes= bigcase=1 mode=reset hold=none segs=none unix=0 script={} i_fam=c14 i_tag=rstpipe i_act=0 | delivered= wire= eof=1 results= hang={} dates=ok",
+        id,
+        verif_harness::connrun::action_enc(&action(0, 0)),
+        if hang { 1 } else { 0 }
+    )
+}
+
 fn child(from: usize, to: usize) {
     let seed = seed_from_env();
     std::panic::set_hook(Box::new(|_| {
@@ -252,7 +315,11 @@ fn child(from: usize, to: usize) {
         PEAK.store(LIVE.load(Ordering::SeqCst), Ordering::SeqCst);
         let live0 = LIVE.load(Ordering::SeqCst);
         let tm = Timing { quiet_ms: 250, deadline_ms: 12000, seg_pause_us: 0 };
-        let line = if i % 14 == 13 { rstbody_case(i, &mut rng) } else { run_case(i as u64, &c, &tmpdir, &tm) };
+        let line = match i % 16 {
+            13 => rstbody_case(i, &mut rng),
+            15 => rstpipe_case(i, &mut rng),
+            _ => run_case(i as u64, &c, &tmpdir, &tm),
+        };
         let maxalloc = MAX_SINGLE.load(Ordering::SeqCst);
         let peak = PEAK.load(Ordering::SeqCst).saturating_sub(live0);
         let panics = PANICS.load(Ordering::SeqCst);
